@@ -118,12 +118,14 @@ class Pipeline(object):
         self.src = Src(style)
         self.taps = {}
         self.caches = []
+        self.cont = None      # the container object of the last start (run again by `restart`)
         # a name with dots and a non-ASCII letter; a name in a directory that does not exist yet
         self.names = [u"c1.v1.ü.pkl", os.path.join("sub", "c2.pkl")][:nc]
 
     def build(self, rc, protocol=2):
         import lena.flow
         self.taps = {k: Tap(k) for k in ("pre", "mid", "post") if self.shape.get(k)}
+        self.cont = None
         # both documented values of *method* (the same pickle module in Python 3)
         method = "pickle" if protocol in (0, 4) else "cPickle"
         self.caches = [lena.flow.Cache(os.path.join(self.dir, self.names[c]), recompute=bool(rc[c]),
@@ -147,26 +149,39 @@ class Pipeline(object):
         return x
 
     def start(self, form):
-        """Build the container the way `form` says and return the generator of the run."""
+        """Build the container the way `form` says, keep it, and return the generator of its first run."""
+        self.cont = None
+        self.cont = self.make(form)
+        return self.launch()
+
+    def launch(self):
+        """Run the kept container object (once more)."""
+        import lena.core
+        cont = self.cont
+        if isinstance(cont, lena.core.Source):
+            return cont()
+        return cont.run(self.src())
+
+    def make(self, form):
         import lena.core
         import lena.flow
         if form == "split":
             # the pipeline as the only branch of a Split (which passes its branches through
-            # meta.alter_sequence).  Split.run materialises its input block, so an upstream that yields
+            # meta.alter_sequence): a bare Cache element when the pipeline is nothing else, a Sequence
+            # otherwise.  Split.run materialises its input block, so an upstream that yields
             # one object mutated in place is not a lazy flow any more: those styles run as a plain Sequence
             if self.style in ALIAS_STYLES:
                 form = "seq"
+            elif len(self.els) == 1:
+                return lena.core.Split([self.els[0]])
             else:
-                return lena.core.Split([lena.core.Sequence(*self.els)]).run(self.src())
+                return lena.core.Split([lena.core.Sequence(*self.els)])
         if form in ("el_calter", "el_malter"):
             # alter_sequence applied to a bare Cache element (the branches of the two functions for
             # "an element"); pipelines with more elements use the Sequence form
             if len(self.els) == 1:
                 alter_fn = lena.flow.Cache.alter_sequence if form == "el_calter" else lena.core.alter_sequence
-                cont = alter_fn(self.els[0])
-                if isinstance(cont, lena.core.Source):
-                    return cont()
-                return cont.run(self.src())
+                return alter_fn(self.els[0])
             form = "seq_" + form[3:]
         base, _, alter = form.partition("_")
         nested = False
@@ -184,17 +199,16 @@ class Pipeline(object):
             cont = lena.flow.Cache.alter_sequence(cont)
         elif alter == "malter":
             cont = lena.core.alter_sequence(cont)
-        if isinstance(cont, lena.core.Source):
-            return cont()
         if isinstance(cont, (list, tuple)):
             cont = lena.core.Sequence(*cont)
-        return cont.run(self.src())
+        return cont
 
 
 def run_history(workdir, scen, cmds, style="int", protocol=2, drain=True, probe=1, keep=False):
     """Execute the commands of one history; return the list of recorded events.
 
-    cmds: dicts with cmd in new / drop / data / start / next / raise / stop (as exported by Cache.tla);
+    cmds: dicts with cmd in new / drop / data / start / restart / next / raise / stop (as exported by Cache.tla);
+    `restart` runs the container object of the last `start` once more (same Sequence / Source / Split object);
     `raise` is a `next` for which the element named by `a` was told at `start` to raise at that value.
     drain: a run still open at the end is continued to its end; probe: afterwards a fresh
     non-recompute pipeline is run `probe` times to its end (reveals what the caches now hold).
@@ -283,12 +297,13 @@ def run_history(workdir, scen, cmds, style="int", protocol=2, drain=True, probe=
                 pl.src.bad = k
             elif site in pl.taps:
                 pl.taps[site].crash = k
+        cmd = "start" if form is not None else "restart"
         try:
-            state["gen"] = pl.start(form)
-            log("start", form, "ok")
+            state["gen"] = pl.start(form) if form is not None else pl.launch()
+            log(cmd, form or "", "ok")
         except Exception as exc:   # noqa
             state["gen"] = None
-            log("start", form, "exc:" + type(exc).__name__)
+            log(cmd, form or "", "exc:" + type(exc).__name__)
 
     def do_drain():
         for _ in range(n + 3):
@@ -333,7 +348,9 @@ def run_history(workdir, scen, cmds, style="int", protocol=2, drain=True, probe=
                 if state["ver"] < len(lens):
                     state["ver"] += 1
                     log("data", "", "ok")
-            elif name == "start":
+            elif name == "restart" and pl.cont is None:
+                pass     # (no container: the start that should have built one failed - reported there)
+            elif name in ("start", "restart"):
                 # look ahead: is an element told to raise in this run, and at which value
                 crash, k = None, 0
                 for later in cmds[i + 1:]:
@@ -344,7 +361,7 @@ def run_history(workdir, scen, cmds, style="int", protocol=2, drain=True, probe=
                         break
                     else:
                         break
-                do_start(c["a"], crash)
+                do_start(c["a"] if name == "start" else None, crash)
         i += 1
     if state["gen"] is not None:
         if drain:
@@ -403,6 +420,7 @@ _FIELDS = ("lens", "nc", "shape", "ev")
 
 _KEEP = {"new": ("cmd", "res", "rc"), "drop": ("cmd", "res", "c"), "data": ("cmd",),
          "start": ("cmd", "res", "a", "pulled", "wpre", "wmid"),
+         "restart": ("cmd", "res", "pulled", "wpre", "wmid"),
          "next": ("cmd", "res", "a", "v", "pulled", "wpre", "wmid"),
          "stop": ("cmd", "res", "a", "pulled", "wpre", "wmid")}
 
@@ -501,9 +519,12 @@ def classify(rec, acc):
         return "unlocated"
     e = ev[acc]
     start = acc
-    while start > 0 and ev[start]["cmd"] != "start":
+    while start > 0 and ev[start]["cmd"] not in ("start", "restart"):
         start -= 1
-    form = ev[start]["a"] if ev[start]["cmd"] == "start" else ""
+    built = start
+    while built > 0 and ev[built]["cmd"] != "start":
+        built -= 1
+    form = ev[built]["a"] if ev[built]["cmd"] == "start" else ""
     how = "hoisted" if "alter" in form else "plain"
     before = ev[:start]
     interrupted_before = any(
@@ -532,7 +553,7 @@ def classify(rec, acc):
             kind = "unexpected-loaded-value"
     elif e["cmd"] == "next":
         kind = "unexpected-exception"
-    elif e["cmd"] == "start":
+    elif e["cmd"] in ("start", "restart"):
         kind = "start-failed" if e["res"] != "ok" else "upstream-touched-at-start"
     elif e["cmd"] == "drop":
         kind = "drop-failed"
